@@ -24,7 +24,15 @@ pub fn gen(seed: u64, tier: Tier) -> ScenarioSpec {
             Some(gen::gen_many_maps(&mut rng, n))
         }
         4..=6 => {
-            let d = 1 + rng.below(if tier == Tier::Thorough { 64 } else { 40 }) as u32;
+            // up to 127 levels in total (the chain plus the top-level map): the deepest tree both formats carry
+            let d = match rng.below(7) {
+                0 => 126,
+                // beyond the deepest tree both formats carry: the reader may refuse it, but whatever it
+                // accepts must survive the rest of the pipeline
+                6 => 127 + rng.below(14) as u32,
+                1 => 120 + rng.below(7) as u32,
+                _ => 1 + rng.below(if tier == Tier::Thorough { 100 } else { 40 }) as u32,
+            };
             Some(gen::gen_chain(&mut rng, d))
         }
         _ => {
@@ -39,6 +47,9 @@ pub fn gen(seed: u64, tier: Tier) -> ScenarioSpec {
     spec.stream2 = gen::gen_stream(&mut rng, len, false);
     spec.sink = gen::gen_sink(&mut rng, false);
     spec.compression = *rng.pick(&[Compression::None, Compression::Lz4, Compression::Zstd]);
+    if rng.chance(1, 10) {
+        spec.knobs.insert("prelude".into(), *rng.pick(&[1i64, 2, 3]));
+    }
     spec
 }
 
@@ -86,8 +97,26 @@ pub fn run(spec: &ScenarioSpec, ctx: &mut Ctx) -> Result<(), Violation> {
     ctx.probe_if(long, "metadata string of 200+ bytes");
     ctx.probe_if(mb, "multi-byte UTF-8 in metadata");
     ctx.probe_if(neg, "negative int32 in metadata");
+    prelude(spec.knob("prelude"), spec.seed, &m, ctx);
     let want = tree_json_string(&m.metadata);
-    let Some(game) = s1_read(P, spec, &m, ctx, false)? else { return Ok(()) };
+    let game = if md > 127 {
+        // deeper than any tree the formats are required to carry: refusal is fine
+        ctx.probe("metadata nested beyond 127 levels");
+        let edges = m.edges();
+        let mut ro = read_slp_noopts(&m.bytes, &spec.stream, &edges);
+        note_read(ctx, &mut ro);
+        match ro.res {
+            Res::Ok(g) => g,
+            Res::Err(..) => {
+                ctx.skip("reader refused a metadata tree nested beyond 127 levels (allowed)");
+                return Ok(());
+            }
+            Res::Caught(c) => return Err(caught_violation(P, "slippi::read", &c)),
+        }
+    } else {
+        let Some(g) = s1_read(P, spec, &m, ctx, false)? else { return Ok(()) };
+        g
+    };
     // 1. parsed tree == model tree, order included
     let got = json_of(&game.metadata);
     if got != want {
